@@ -40,6 +40,9 @@ theorem substrDefaultEnd_eq : Gen.RespGuard.substrDefaultEnd = 0 := rfl
 /-- the model's `Modifier` has one constructor per modifier name the source knows -/
 theorem modifierNames_eq : Gen.RespGuard.modifierNames = ["lower", "replace", "substr", "upper"] := rfl
 
+/-- `values[0]` is read only under `len(values) == 1` (model `varXpath`: the unwrapping cannot fail) -/
+theorem xpathUnwrapGuards_eq : Gen.RespGuard.xpathUnwrapGuards = ["len(values) == 1"] := rfl
+
 /-! ### assert/response -/
 
 theorem sizeRejects_eq (op : String) (val len : Nat) :
